@@ -38,6 +38,13 @@ func (en *env) modTargets(m ast.Expr) []modTarget {
 		p := en.addrOf(m)
 		pv := p.V.(PtrV)
 		return []modTarget{{heap: pv.L.Heap, idxs: pv.L.Idxs, text: txt}}
+	case *ast.CallExpr:
+		// allof(x.f): field f of every object of x's type (the whole heap of that field)
+		if id, ok := x.Fun.(*ast.Ident); ok && id.Name == "allof" && len(x.Args) == 1 {
+			p := en.addrOf(x.Args[0])
+			pv := p.V.(PtrV)
+			return []modTarget{{heap: pv.L.Heap, text: txt}}
+		}
 	case *ast.SliceExpr:
 		base := en.eval(x.X, nil)
 		sv, ok := base.V.(SliceV)
